@@ -69,7 +69,8 @@ Init == /\ pend = [k \in Keys |-> <<>>]
 
 Log(a, args, exp) ==
   /\ last' = [a |-> a, args |-> args, exp |-> exp]
-  /\ hist' = Append(hist, [a |-> a, args |-> args, exp |-> exp])
+  /\ hist' = IF D = 0 THEN hist     \* D = 0: model checking / graph export, no history needed
+             ELSE Append(hist, [a |-> a, args |-> args, exp |-> exp])
 
 \* one STATS_REPLY message of request k arrives
 Part(k, more, n) ==
@@ -119,6 +120,9 @@ EventPure(ev) ==
   \A i \in 1..Len(ev.e) : /\ ev.e[i][1] = ev.e[1][1] /\ ev.e[i][2] = ev.e[1][2] /\ ev.e[i][3] = i
                           /\ KType[ev.e[i][1]] = ev.t /\ KXid[ev.e[i][1]] = ev.x
 NeverMerged == \A i \in 1..Len(last.exp.con) : EventPure(last.exp.con[i])
+
+\* the same as an action property: evaluated on EVERY transition (VIEW viewE hides last)
+NeverMergedA == [][NeverMerged']_vars
 
 \* the event fires when and only when a final part arrives, once, on connection and nexus alike
 ExactlyOnceAfterFinal ==
